@@ -157,6 +157,10 @@ func c13Corpus(tier string) []c13Case {
 		}
 		out = append(out, fc)
 	}
+	// lists under __schema whose entries do not carry a plain `name` (their order must not come from map iteration)
+	for _, q := range []string{"{ __schema { types { kind } } }", "{ __schema { types { n: name } directives { locations } } }"} {
+		out = append(out, c13Case{world: "Wmin", c: a.Case{Q: q}})
+	}
 	// abstract fields whose possible types get different helper sets (one fragment selects id itself)
 	for _, q := range []string{"{ us { ... on N1 { id phone } ... on N4 { label } } }", "{ us { ... on N1 { phone } ... on N4 { id label } } }",
 		"{ us { ... on N4 { label } } }", "{ us { __typename ... on N1 { id } ... on N4 { label } } }"} {
